@@ -68,10 +68,13 @@ def f64Lt (x y : F64) : Bool :=
     | false, false => mag x < mag y
     | true, true => mag y < mag x
 
-/-- `x.clamp(0.0, 1.0)`: NaN stays NaN, `-0.0` stays `-0.0` (it is not `< 0.0`) -/
+/-- `x.clamp(0.0, 1.0)`: NaN stays NaN, `-0.0` stays `-0.0` (it is not `< 0.0`).  Every NaN is the
+    canonical quiet NaN here: sign and payload of a NaN are platform matters (x86 produces the
+    NEGATIVE quiet NaN for `0 * inf`) and no decision looks at them; the harness canonicalises the
+    bits it prints in the same way -/
 def clampBits (b : Nat) : Nat :=
   let x := F64.ofBits b
-  if x.isNaN then b
+  if x.isNaN then bitsNaN
   else if f64Lt x (F64.ofBits 0) then 0
   else if f64Lt (F64.ofBits bits_1_0) x then bits_1_0
   else b
